@@ -447,6 +447,24 @@ func (g *genState) genC13() {
 	}
 	g.sizeAttacks([]string{"c13"})
 	g.offsetAttacks([]string{"c13"})
+	// integers stored in a wider varint form than the encoder would choose (the decoders accept them when
+	// the value fits the declared width): parser, probe and open must agree on them too
+	for _, code := range []byte{10, 11, 12, 20, 21, 22} {
+		for _, v := range []uint64{0, 1, 10, 0xfc, 0xfd, 0x100, 0x7fff, 0xfffe, 0xffff, 0x10000, 0x1fffe, 0x7fffffff, 0xffffffff, 0x100000000, 1<<63 - 1, 1<<64 - 1} {
+			for _, w := range []int{1, 3, 5, 9} {
+				var vi []byte
+				if w == 9 {
+					vi = []byte{byte(v >> 56), byte(v >> 48), byte(v >> 40), byte(v >> 32), byte(v >> 24), byte(v >> 16), byte(v >> 8), byte(v), 0xff}
+				} else if vi = forcedVarint(v, w); vi == nil {
+					continue
+				}
+				val := append(vi, code)
+				for _, pre := range [][]byte{nil, {0x01}, {0xff, 0xfe, 0xfd, 0x00}, g.prefix()} {
+					emit("widevarint", append(append([]byte{}, pre...), val...))
+				}
+			}
+		}
+	}
 	n := 20000
 	if g.thor {
 		n = 300000
